@@ -202,11 +202,17 @@ def stepMdb (st : St) (args : List String) : St × String :=
           (mdbSet { st with gcounter := m1.counter } d (m1, sp1, true), showOut mo ++ "\t" ++ showOut so)
   | _ => (st, "bad-op\tbad-op")
 
+def stepCodec2 (a b : String) : String :=
+  let ra := stepCodec ["dec", a]
+  let rb := stepCodec ["dec", b]
+  if ra == "err" || rb == "err" then "err" else ra ++ " | " ++ rb
+
 def step (st : St) (line : String) : St × String :=
   match (line.trimAscii.toString.splitOn " ").filter (· ≠ "") with
   | "vf" :: args => let r := stepVF st.vf args; ({ st with vf := r.1 }, r.2)
   | "enc" :: args => (st, stepCodec ("enc" :: args))
   | "dec" :: args => (st, stepCodec ("dec" :: args))
+  | ["dec2", a, b] => (st, stepCodec2 a b)
   | "cfg" :: args => (st, stepCfg args)
   | "sys" :: args => stepSys st args
   | "mdb" :: args => stepMdb st args
